@@ -534,7 +534,9 @@ func (i *IniParser) parse(ini *ini) error {
 
 			for _, group := range groups {
 				opt = group.optionByName(inival.Name, func(o *Option, n string) bool {
-					return strings.ToLower(o.tag.Get("ini-name")) == strings.ToLower(n)
+					iniName := o.tag.Get("ini-name")
+
+					return len(iniName) != 0 && strings.ToLower(iniName) == strings.ToLower(n)
 				})
 
 				if opt != nil && len(opt.tag.Get("no-ini")) != 0 {
